@@ -149,6 +149,42 @@ func genCase(r *vh.Rand, i int, tier string) string {
 			emit(fmt.Sprintf("INSTALL %d", lag))
 			continue
 		}
+		if lag == 0 && !big && r.Chance(1, 30) {
+			// snapshots of the running replica with only "quiet" session traffic in between
+			// (proposals that do not advance RespondedUpTo, typically a client's first
+			// proposal), then a restart from the latest one and the retry
+			if !c.registered {
+				emit(entryText(c.id, seriesRegister, 0, nil))
+				c.registered, c.series, c.responded, c.inflight = true, 1, 0, ""
+			}
+			emit(fmt.Sprintf("SAVE %d", r.Intn(3)))
+			n := 1 + r.Intn(3)
+			for j := 0; j < n; j++ {
+				if c.inflight == "" || r.Chance(1, 3) {
+					if c.inflight != "" {
+						c.series++ // the client gives up on the previous one without acknowledging it
+					}
+					c.inflight = entryText(c.id, c.series, c.responded, cmdFor(r))
+				}
+				emit(c.inflight)
+			}
+			emit(fmt.Sprintf("SAVE %d", r.Intn(2)))
+			if r.Chance(1, 2) {
+				emit(c.inflight)
+			}
+			emit("RESTART")
+			emit(c.inflight)
+			continue
+		}
+		if lag == 0 && !big && r.Chance(1, 25) {
+			// a snapshot with entries applied while it is being written, later a restart
+			emit(fmt.Sprintf("SAVE %d", 1+r.Intn(4)))
+			continue
+		}
+		if lag == 0 && !big && r.Chance(1, 30) {
+			emit("RESTART")
+			continue
+		}
 		switch {
 		case x < 12:
 			s := entryText(c.id, seriesRegister, 0, nil)
@@ -236,7 +272,11 @@ func genCase(r *vh.Rand, i int, tier string) string {
 	if i == 3 {
 		ops = append(ops, "CAP")
 	}
-	return fmt.Sprintf("cap=%d | %s", cap, strings.Join(ops, " ; "))
+	kind := ""
+	if !big && r.Chance(2, 5) {
+		kind = " kind=conc"
+	}
+	return fmt.Sprintf("cap=%d%s | %s", cap, kind, strings.Join(ops, " ; "))
 }
 
 func min64(a, b uint64) uint64 {
